@@ -510,6 +510,10 @@ def run(rep: Report) -> None:
     spellings(rep, prog, tables)
     term_prefix_guard(rep, prog)
     token_resolution(rep, prog, resolver)
+    from .c06 import immutability
+    rep.rule("R06.6", "rendering cannot change what is rendered: no attribute of a Quantity / Level / Measurement is assigned outside its constructor "
+             "(an in-place operator reached from str() would make parse(str(q)) differ from q) - shared with C06", floor=10)
+    immutability(rep, prog, resolver)
     from ..quantity_rules import check_quantity_ctor
     check_quantity_ctor(rep, prog, "R03.7")
     # R13.6
